@@ -484,6 +484,11 @@ def build(ctx):
         ctx.post('partition.every_left_group_is_in_exactly_one_of_join_and_xor', [], in_join != in_xor, kind='lemma')
     ctx.guarded('partition', partition)
 
+    # ------------------------------------------------------------------ frame: operations that return a new object never alter their operands
+    def frame_section():
+        from pyvc import own
+        own.post_all(ctx, own.table_report(PROP), replay=frame_replay)
+    ctx.guarded('frame', frame_section)
 
 class Tail:
     """the last statements of xor: `res.extend(lids[l:])` and the final row selection `self[sum(res, [])]`, which is taken
@@ -515,3 +520,8 @@ class Tail:
             ex.use('assumed contract:dictable[list of row indices] is the table of those rows in that order (C01)')
             return SV('selected', None, groups=idx.f['groups'], table=recv.name)
         return NotImplemented
+
+
+def frame_replay(d):
+    """replay description of a failed frame obligation: the native re-check looks at the receiver / operands before and after the call"""
+    return dict(kind='frame', name=d['name'], where=d['where'], detail=d['detail'][:300])
